@@ -70,7 +70,8 @@ def run_case(spec):
     N = int(rng.integers(2, 9))
     k = int(rng.integers(0, N))
     cplx = bool(rng.integers(0, 2))
-    mode = str(rng.choice(["hermitian", "hermitian_same_object", "biorthogonal", "generic", "generic_mixed", "biorthogonal_mixed"]))
+    mode = str(rng.choice(["hermitian", "hermitian_same_object", "biorthogonal", "generic", "generic_mixed", "biorthogonal_mixed", "near_hermitian"]))
+    low_precision = False
 
     def rnd(shape):
         a = rng.integers(-6, 7, size=shape) / 4.0
@@ -81,6 +82,17 @@ def run_case(spec):
         R = Q[:, :k]
         L = R if mode == "hermitian_same_object" else R.copy()
         P = ComplementProjector(R) if mode == "hermitian_same_object" and rng.random() < 0.5 else ComplementProjector(R, L)
+        biorth = True
+    elif mode == "near_hermitian":
+        # left vectors of a weakly non-Hermitian problem: L = R + eps W with W^dagger R = 0 (so L^dagger R = 1), a genuinely
+        # different set that is "close" to R in the sense of numpy's default allclose window
+        Q = np.linalg.qr(rnd((N, N)) + np.eye(N) * 3)[0]
+        R = Q[:, :k]
+        eps = float(rng.choice([1e-5, 1e-6, 1e-7, 1e-8]))
+        L = R + eps * (Q[:, k:] @ rnd((N - k, k)))
+        if rng.random() < 0.5:
+            R, L = L, R
+        P = ComplementProjector(R, L)
         biorth = True
     elif mode == "biorthogonal":
         M = rnd((N, N)) + 3 * np.eye(N)
@@ -95,6 +107,7 @@ def run_case(spec):
         R, L = (A1, A2) if rng.random() < 0.5 else (A2, A1)
         if rng.random() < 0.3:
             R = R.astype(np.float32 if np.isrealobj(R) else np.complex64)
+            low_precision = True
         P = ComplementProjector(R, L)
         biorth = False
         cplx = True
@@ -138,7 +151,7 @@ def run_case(spec):
             raise Violation(f"{what}: shape {got.shape} != {np.asarray(want).shape}")
         scale = max(1.0, float(np.abs(want).max(initial=0)))
         err = float(np.abs(got - want).max(initial=0))
-        if not err <= 1e-10 * scale * 100:
+        if not err <= (1e-6 if low_precision else 2e-11) * scale:
             raise Violation(f"{what}: differs from the dense expression by {err:.3e} (scale {scale:.3g}); mode={mode}, complex={cplx}")
         counters["comparisons"] += 1
 
@@ -202,7 +215,7 @@ def run_case(spec):
 def finalize(c, tier, evaluations, distinct):
     reasons = []
     need = dict(comparisons=20000, trees_with_P=3000, trees_P_under_unary_in_composition=300, idempotency_checks=500,
-                mode_biorthogonal=200, mode_hermitian=200, mode_generic=200, mode_generic_mixed=200, mode_biorthogonal_mixed=200, complex=500, real=500)
+                mode_biorthogonal=200, mode_hermitian=200, mode_generic=200, mode_generic_mixed=200, mode_biorthogonal_mixed=200, mode_near_hermitian=200, complex=500, real=500)
     for k, v in need.items():
         if c.get(k, 0) < v:
             reasons.append(f"{k} observed only {c.get(k, 0)} (< {v})")
